@@ -50,8 +50,8 @@ fn props() -> Vec<Prop> {
             id: "C03",
             scenario: "sendbody-chunked",
             run: scen_send::c03,
-            quick: 120_000,
-            thorough: 6_000_000,
+            quick: 300_000,
+            thorough: 12_000_000,
             subs: &["ops"],
             level: "exploration",
             rule: "seeded random operation sequences (data write / finishing write / empty write after end / non-empty write after end, up to 40 ops) with (input length, output length) drawn from tight, exact-fit, fit+-k, around-10KiB and large classes, on Flow<SendBody> and Call<WithBody>; a run is non-trivial if it has >=2 ops and moved data, met a tight buffer or finished; distinct = distinct hash of the abstract trace (op kind, size buckets, result kind)",
@@ -64,8 +64,8 @@ fn props() -> Vec<Prop> {
             id: "C04",
             scenario: "sendbody-sized",
             run: scen_send::c04,
-            quick: 120_000,
-            thorough: 5_000_000,
+            quick: 300_000,
+            thorough: 10_000_000,
             subs: &["ops"],
             level: "exploration",
             rule: "seeded random operation sequences (write / direct-write report / queries, up to 40 ops) against a countdown model for N in {0,1,2,3,<=300,10239..10249,<=70000,2^32+5,u64::MAX}; non-trivial = moved bytes in >=1 op with >=2 ops, or a refusal was exercised; distinct = abstract trace hash",
@@ -92,8 +92,8 @@ fn props() -> Vec<Prop> {
             id: "C19",
             scenario: "sendbody-progress",
             run: scen_send::c19,
-            quick: 150_000,
-            thorough: 6_000_000,
+            quick: 300_000,
+            thorough: 15_000_000,
             subs: &["chunked-pairs", "chunked-loops", "sized-pairs"],
             level: "exploration",
             rule: "seeded (input length, output length) pairs with output 6..=11000 and around multiples of 10248, and whole-body loops through one fixed buffer; non-trivial = every pair, every loop with >=2 calls; distinct = (size buckets, full-consumption / call count)",
@@ -106,8 +106,8 @@ fn props() -> Vec<Prop> {
             id: "C05",
             scenario: "recvhead",
             run: scen_head::c05,
-            quick: 60_000,
-            thorough: 1_500_000,
+            quick: 150_000,
+            thorough: 6_000_000,
             subs: &["heads"],
             level: "exploration",
             rule: "generated well-formed response heads (1.0/1.1, 101..999, empty/long/obs-text reason, 0..128 fields and a 129..140 class, OWS variants, empty values, repeated names, 3xx with Location at drawn positions) followed by arbitrary bytes, offered to Flow<RecvResponse>, Call<RecvResponse> and parser::try_parse_response on a drawn increasing sequence of arrival prefixes (one-shot, trickle, random, structural cuts around line ends and the Location line, every prefix for short heads) with re-polls; non-trivial = >=2 polls; distinct = abstract trace (cut position class relative to line ends, status class, result kind)",
@@ -120,8 +120,8 @@ fn props() -> Vec<Prop> {
             id: "C20",
             scenario: "taps",
             run: scen_head::c20,
-            quick: 60_000,
-            thorough: 1_500_000,
+            quick: 150_000,
+            thorough: 6_000_000,
             subs: &["response", "request"],
             level: "exploration",
             rule: "generated request and response heads with 0..N+2 fields for limits N in {0,1,4,128}, followed by arbitrary bytes, offered to try_parse_response::<N>, try_parse_partial_response::<N>, try_parse_request::<N> on every prefix (heads <= 300 bytes) or on drawn structural prefixes; non-trivial = >=2 prefixes; distinct = abstract trace (limit, over/within, completeness, result kind)",
@@ -134,8 +134,8 @@ fn props() -> Vec<Prop> {
             id: "C07",
             scenario: "recvbody-chunked",
             run: scen_body::c07,
-            quick: 100_000,
-            thorough: 5_000_000,
+            quick: 300_000,
+            thorough: 20_000_000,
             subs: &["complete", "truncated-by-peer-close", "complete", "small-scope-enumerated"],
             level: "exploration",
             rule: "generated valid chunked codings (3 of 4 in the small scope: <=3 chunks of sizes 1..3 and 15/16/255/256/4095/4096; else up to 12 chunks / 12000 bytes; upper/lower hex, leading zeros, extensions, 0..2 trailers, payload with CR/LF/0/;) reached through a real head and always followed by a next message, delivered under drawn arrival cut sets (one-shot, trickle, random, structural at every grammar-class change +-2) into drawn output sizes (0..4, 1, random, large, mixed) with boundary stopping on/off/toggled and re-polls; a sub-batch truncates the coding (peer close); non-trivial = >=2 reads; distinct = abstract trace (grammar class at window end, output class, stop, progress kind)",
@@ -148,8 +148,8 @@ fn props() -> Vec<Prop> {
             id: "C08",
             scenario: "recvbody-plain",
             run: scen_body::c08,
-            quick: 100_000,
-            thorough: 4_000_000,
+            quick: 200_000,
+            thorough: 12_000_000,
             subs: &["content-length", "close-delimited"],
             level: "exploration",
             rule: "Content-Length N in {1..3, <=300, 10239..10249, <=70000, 2^32+5, u64::MAX} and close-delimited bodies of 0..70000 bytes reached through a real head, next-message bytes behind the body, drawn arrival schedules and output sizes incl. 0, early peer close in 1 of 8 sized runs; each read is compared with min(window, out, remaining); non-trivial = >=2 reads; distinct = abstract trace",
@@ -162,8 +162,8 @@ fn props() -> Vec<Prop> {
             id: "C02",
             scenario: "head",
             run: c02_all,
-            quick: 80_000,
-            thorough: 3_000_000,
+            quick: 200_000,
+            thorough: 12_000_000,
             subs: &["heads", "heads", "redirect-depth"],
             level: "exploration",
             rule: "generated absolute-URI requests C17 accepts (9 methods, 1.0/1.1, 0..12 original and 0..6 caller-added headers with repeated names and obs-text values, explicit or derived Host, CL / chunked / defaulted framing in original or added headers, despite-method, Expect) on Flow and both Call constructors; the one-shot head is strictly parsed and compared with the reference head, then a second instance is written under a drawn sequence of output sizes biased to len(next line)+{-1,0,+1}, with queries and extra writes after completion, and the flow is continued into the body state and a body is sent; non-trivial = >=2 write calls; distinct = abstract trace (fit class per call, line index, result)",
@@ -176,8 +176,8 @@ fn props() -> Vec<Prop> {
             id: "C17",
             scenario: "head-validity",
             run: c17_all,
-            quick: 80_000,
-            thorough: 2_000_000,
+            quick: 150_000,
+            thorough: 20_000_000,
             subs: &["classes", "classes", "redirected"],
             level: "exploration",
             rule: "schedule-free: validity-biased generator (a valid request plus 0..2 mutations: version 0.9/2/3, 1.1-only method on 1.0, second Host, Content-Length variants incl. negative / non-numeric / non-UTF-8 / duplicate, Transfer-Encoding variants, despite-method, API constructor) classified by an independent reference; 4 write attempts with different buffers each; a third sub-batch plays redirect chains and lets the caller amend the redirected (body-less) request with duplicate / non-numeric / negative Content-Length, a Content-Length or Transfer-Encoding: chunked on the body-less method, or two Host headers: four write attempts must each be refused; every run is non-trivial; distinct = (api, class, attempt results)",
@@ -190,8 +190,8 @@ fn props() -> Vec<Prop> {
             id: "C01",
             scenario: "exchange",
             run: scen_exchange::c01,
-            quick: 60_000,
-            thorough: 3_000_000,
+            quick: 200_000,
+            thorough: 8_000_000,
             subs: &["exchanges", "exchanges", "exchanges", "peer-closes-mid-message"],
             level: "exploration",
             rule: "1..3 back-to-back exchanges on one fixed server byte stream (request: 9 methods, 1.0/1.1, CL/chunked/defaulted/no body, Expect with the await policy fixed per configuration; response: any status 101..999, CL/chunked/close-delimited/no body, 0..40 fields, optional interim 100) run in a discrete-event world under drawn arrival schedules (one-shot, trickle, random, structural), drawn output/piece/read buffer policies (large, 0..12, random, mixed), client think times, segment latencies, spurious re-polls, read-only queries and boundary-stop toggles; compared with reference models, with the canonical-schedule twin of the real code, and continued on the same stream when the verdict allows reuse; a sub-batch cuts the stream inside the response (peer close); non-trivial = >=8 library calls; distinct = abstract trace (state path, call count, overflow retries)",
@@ -204,22 +204,22 @@ fn props() -> Vec<Prop> {
             id: "C06",
             scenario: "exchange-framing",
             run: scen_exchange::c06,
-            quick: 2 * scen_exchange::C06_CELLS as u64,
-            thorough: 300 * scen_exchange::C06_CELLS as u64,
+            quick: 4 * scen_exchange::C06_CELLS as u64,
+            thorough: 4000 * scen_exchange::C06_CELLS as u64,
             subs: &["cells"],
             level: "exploration",
             rule: "schedule-free: the run index enumerates the 4860 coarse cells method(9) x status class(9) x response version(2) x Content-Length class(6) x Transfer-Encoding class(5) round-robin, the seed picks the exact status and values; the real exchange is driven one-shot in 3 of 4 runs and sliced in the rest; compared with an independent RFC 9112 6.3 reference (error / successor state / body_mode / delivered bytes / exact consumption) on Flow and, sampled, on Call::into_body; every run is non-trivial; distinct = (cell, path length, terminal)",
             assumptions: &[A_COMMON, "DontCare cells: 3xx != 304 without Content-Length but with a Transfer-Encoding that does not delimit; 'chunked, gzip'; Content-Length '+5'; chunked together with a non-numeric Content-Length", "status 100 is excluded (C11)", "single Content-Length / Transfer-Encoding field"],
             cells_total: scen_exchange::C06_CELLS,
             cells_what: "method x status class {1xx,200,204,2xx,3xx!=304,304,4xx,5xx,6xx-9xx} x version x CL {absent,0,n,u64::MAX,>u64::MAX,non-numeric} x TE {absent,chunked,mixed case,list ending in chunked,other}",
-            exhaustive_note: "every coarse cell is visited at least twice per quick run (round-robin), the values inside a cell are sampled",
+            exhaustive_note: "every coarse cell is visited four times per quick run (round-robin), the values inside a cell are sampled",
         },
         Prop {
             id: "C10",
             scenario: "exchange-verdict",
             run: scen_exchange::c10,
-            quick: 60_000,
-            thorough: 3_000_000,
+            quick: 200_000,
+            thorough: 15_000_000,
             subs: &["verdicts", "verdicts", "verdicts", "lost-boundaries"],
             level: "exploration",
             rule: "exchanges over request version x original Connection header (close / keep-alive / both / absent) x method x Expect handshake outcome (produced by the simulated timer racing drawn arrival latencies: continued, refused, timed out, late 100) x response version x status (3xx with and without body: Redirect and Cleanup exits) x framing x response Connection values; an all-five-conditions cell is forced in 1 of 12 runs; verdict compared with the set of true close conditions, reason mapped by keyword, and a reusable connection is really reused for a next exchange; distinct = (condition mask, path length, exit state)",
@@ -232,8 +232,8 @@ fn props() -> Vec<Prop> {
             id: "C11",
             scenario: "exchange-expect100",
             run: scen_exchange::c11,
-            quick: 60_000,
-            thorough: 3_000_000,
+            quick: 200_000,
+            thorough: 8_000_000,
             subs: &["race"],
             level: "exploration",
             rule: "Expect requests (1.0/1.1, CL/chunked) against a reactive simulated peer (100 after the head with drawn think time, refusal with any status with/without fields, or silence) while the client's await-100 timer (0 .. 60 s simulated) races the peer's think time and per-segment latencies; the first head is cut structurally around the status-line end; every try_read_100 is judged against the ground-truth head by zone, the edge out of Await100 against the decision, and the run continues to Cleanup/Redirect with the delivered response, body and consumption checked; distinct = abstract trace (zone, kind, result per look)",
@@ -246,8 +246,8 @@ fn props() -> Vec<Prop> {
             id: "C09",
             scenario: "graph",
             run: scen_graph::c09,
-            quick: 100_000,
-            thorough: 4_000_000,
+            quick: 300_000,
+            thorough: 30_000_000,
             subs: &["walks"],
             level: "exploration",
             rule: "random walks (up to 90 calls) over all public methods of the current flow state - accessors, header(), send_body_despite_method(), I/O with drawn slices, readiness query, advance (also premature: terminal probe), calls repeated after they have decided (try_read_100, try_response, as_new_flow, finishing writes) - interleaved with the arrival of a scripted server stream (interim 100 / refusal / final with every framing, redirects with/without Location, 304, 1xx) for generated valid request configurations; the flow produced by as_new_flow is walked through Prepare and SendRequest; oracle: no panic, readiness query iff the model says complete, proceed() yields a state iff ready, successor = documented graph on ground truth; non-trivial = reached Cleanup, a terminal probe, or >=4 calls; distinct = abstract trace (state, choice per step)",
@@ -260,8 +260,8 @@ fn props() -> Vec<Prop> {
             id: "C13",
             scenario: "redirect-world",
             run: scen_redirect::c13,
-            quick: 60_000,
-            thorough: 3_000_000,
+            quick: 150_000,
+            thorough: 10_000_000,
             subs: &["chains"],
             level: "exploration",
             rule: "redirect chains of 1..4 hops in a world of origins {a,b,c}.test x {http,https} x ports; the original request carries unique Authorization / Cookie / Content-Length secrets; every hop is a real exchange (one-shot in 3 of 4 runs, sliced otherwise) whose head is read at the receiving origin by the strict reference parser; Locations drawn from absolute (both schemes, ports), scheme-relative, path-absolute and relative forms so that chains leave and return, downgrade and upgrade; both policies; all methods; statuses 300..399; non-trivial = at least one followed hop; distinct = abstract trace (depth, status, Location form, host/scheme change)",
@@ -274,8 +274,8 @@ fn props() -> Vec<Prop> {
             id: "C14",
             scenario: "redirect-world",
             run: scen_redirect::c14,
-            quick: 60_000,
-            thorough: 3_000_000,
+            quick: 150_000,
+            thorough: 10_000_000,
             subs: &["chains"],
             level: "exploration",
             rule: "as C13 with the rich Location grammar (absolute with/without ports, scheme-relative, path-absolute, path-relative with ./ and ../, dot-only, query-only, empty, authority-only, fragments, several Location fields) plus a must-error class (missing, non-UTF-8, unterminated IPv6 literal, port > 65535, non-numeric port) and a garbage class; oracle: Flow<Prepare>::uri() after as_new_flow = RFC 3986 5.2 resolution of the last Location against the current hop's URI (independent resolver), request line and derived Host at the receiving origin, chains of up to 4 hops; distinct = abstract trace",
@@ -288,22 +288,22 @@ fn props() -> Vec<Prop> {
             id: "C15",
             scenario: "redirect-world",
             run: scen_redirect::c15,
-            quick: 2 * scen_redirect::C15_CELLS as u64,
-            thorough: 200 * scen_redirect::C15_CELLS as u64,
+            quick: 4 * scen_redirect::C15_CELLS as u64,
+            thorough: 5000 * scen_redirect::C15_CELLS as u64,
             subs: &["cells"],
             level: "exploration",
             rule: "schedule-free: the run index enumerates all 3600 cells method(9) x status(300..399) x policy(2) x response body(2) for the first hop; a second hop continues with a drawn status so that hop k's method feeds hop k+1; 1 in 40 hops answers a non-3xx status; oracle: Redirect state iff 3xx != 304, status() reports it, as_new_flow None exactly for 307/308 with POST/PUT/PATCH/DELETE, method per table checked on the new flow and at the receiving origin; every run is non-trivial",
             assumptions: &[A_COMMON],
             cells_total: scen_redirect::C15_CELLS,
             cells_what: "method x status 300..399 x auth policy x response body yes/no (first hop)",
-            exhaustive_note: "all 3600 first-hop cells are enumerated at least twice in every quick run",
+            exhaustive_note: "all 3600 first-hop cells are enumerated four times in every quick run",
         },
         Prop {
             id: "C16",
             scenario: "redirect-world",
             run: scen_redirect::c16,
-            quick: 60_000,
-            thorough: 3_000_000,
+            quick: 150_000,
+            thorough: 8_000_000,
             subs: &["chains"],
             level: "exploration",
             rule: "as C13; at every Prepare (redirect depth 0..3) the simulated cookie jar adds 0..60 headers with hop-tagged unique values, names from {cookie, authorization, connection, host, content-length, transfer-encoding} and random tokens, trimmed to requests C17 accepts; oracle at the receiving origin: every added header is on the wire, in the order added, ahead of every original header; distinct = abstract trace",
@@ -316,8 +316,8 @@ fn props() -> Vec<Prop> {
             id: "C12",
             scenario: "hostile",
             run: scen_hostile::c12,
-            quick: 90_000,
-            thorough: 5_000_000,
+            quick: 150_000,
+            thorough: 15_000_000,
             subs: &["mutated-exchanges", "alphabet-strings", "oversize-items"],
             level: "fault_enumeration",
             rule: "three interleaved sub-batches: (0) valid exchanges for every request configuration with 1..4 grammar-aware mutations of the server stream (bit flip, delete, duplicate, splice, decimal bloat, hex bloat, stray CR/LF, header flood, truncation, alphabet garbage; positions biased to structural bytes) under drawn arrival / buffer / timer schedules; (1) byte strings over a 23-symbol protocol alphabet enumerated by the run index - every string up to length 3 in quick, up to length 4 in thorough, drawn strings of length 5..8 beyond - offered to try_read_100, try_response and read in all three framings, one-shot and sliced; (2) oversize items (field name of 65535..70000 bytes, 20..40 digit length, 16..19 digit chunk size, 127..135 fields, five close conditions at once, giant reason / value / chunk extension); after the exchange comes to rest state-advancing calls are made on whatever state is left; every run is non-trivial; distinct = abstract trace (path length, end kind, call count)",
